@@ -1812,6 +1812,10 @@ class Union(OR):
             yield from self.yield_final_output_from_cache(sources)
             return
 
+        # which side produced the current row is decided anew by every evaluation (an earlier one may have been abandoned
+        # in the middle of either side).
+        self.left_evaluated = False
+        self.right_evaluated = False
         # constrain left values by available sources
         left_prev = self.left._eval_parent_
         self.left._eval_parent_ = self
@@ -1822,6 +1826,7 @@ class Union(OR):
                 output = copy(sources)
                 output.update(left_value)
                 self.left_evaluated = True
+                self.right_evaluated = False
                 if self.left._is_false_:
                     if self._yield_when_false_:
                         yield from self.evaluate_right(output)
